@@ -28,7 +28,7 @@ META = {
     'assumptions': ['plain Python integers as reference for 16-bit two\'s complement'],
     'exhaustive': {'quick': 'NOT, negation, ABS-free unary ops over all 65536 integers (binary operators sampled)',
                    'thorough': 'unary ops over all 65536 integers; binary ops over 65536 x R and R x 65536 for the listed right-operand set R'},
-    'require_counters': {'any': ['div_overflow_seen', 'div_zero_seen', 'for_overflow_seen']},
+    'require_counters': {'any': ['div_overflow_seen', 'div_zero_seen', 'for_overflow_seen', 'operand_variables_read_back', 'division_identity_evaluated_over_variables']},
 }
 
 OPS = ['idiv', 'mod', 'and', 'or', 'xor', 'eqv', 'imp']
@@ -271,6 +271,36 @@ EDGE_FLOATS = [32767.4, 32767.5, 32768, 40000, 65535, 65535.4, 65535.5, 65536, -
                0.5, -0.5, 1.5, 2.5, -1.5, 1e10, -1e10]
 
 
+def _operands_intact(box, res, op, a, b):
+    """After `PRINT A% op B%` the operand variables still hold a and b; for \\ and MOD the identity
+    a = b*(a\\b) + (a MOD b) is also evaluated in one expression over the same variables."""
+    from .. import harness
+    try:
+        va, vb = box.s.get_variable('A%'), box.s.get_variable('B%')
+    except Exception as e:  # noqa
+        res.violation('basic:%s:operand-variable-unreadable' % op, repr(e), [op, a, b])
+        return
+    res.count('operand_variables_read_back')
+    if (va, vb) != (a, b):
+        res.violation('basic:%s:operand-variable-changed-by-evaluation' % op,
+                      'A%%=%d:B%%=%d:PRINT A%% %s B%% left A%%=%r B%%=%r' % (a, b, op, va, vb), [op, a, b])
+        return
+    if op in ('idiv', 'mod') and b != 0 and -32768 <= rnum.trunc_div(a, b) <= 32767:
+        try:
+            out = box.ex(b'PRINT B%*(A%\\B%)+(A% MOD B%)')
+        except harness.Internal as e:
+            res.violation(e.key, str(e), [op, a, b])
+            return
+        res.count('division_identity_evaluated_over_variables')
+        try:
+            ok = float(out.strip()) == a
+        except ValueError:
+            ok = False
+        if not ok:
+            res.violation('basic:identity:b*(a-idiv-b)+(a-mod-b)-differs-from-a',
+                          'A%%=%d:B%%=%d:PRINT B%%*(A%%\\B%%)+(A%% MOD B%%) -> %r' % (a, b, out), [op, a, b])
+
+
 def _basic_ops(spec, rng, res):
     from .. import harness
     B = boundary_set()
@@ -313,6 +343,8 @@ def _basic_ops(spec, rng, res):
                 except ValueError:
                     got = ('garbled', out)
             ok = (got in exp[1]) if exp[0] == 'either' else (got == exp)
+            if use_vars:
+                _operands_intact(box, res, op, a, b)
             res.case((op, a, b, use_vars))
             if i < 2:
                 res.sample({'kind': 'basic_ops', 'stmt': 'PRINT %r %s %r' % (a, op, b), 'output': out, 'expected': repr(exp)})
